@@ -204,6 +204,7 @@ type c15Op struct {
 	Hash  int    `json:"hash,omitempty"`  // call: 0 none, 1 mod hash, 2 consistent hash
 	Code  uint32 `json:"code,omitempty"`  // call: hash code
 	Defer bool   `json:"defer,omitempty"` // call: if this is an answered probe, leave the reinstatement to a later "reinst"
+	OneWay bool  `json:"oneway,omitempty"` // call (real-call histories): a one-way call (nothing is awaited)
 	L     []int  `json:"l,omitempty"`     // refresh: what the registry returns as active
 	I     []int  `json:"i,omitempty"`     // refresh: what the registry returns as inactive
 	// recorded
